@@ -56,7 +56,7 @@ class Exact:
         return L
 
     TRANSPARENT = ('as_bytes', 'into_bytes', 'as_str', 'to_string', 'to_owned', 'as_ref', 'from_utf8', 'from_utf8_unchecked', 'into_string', 'to_vec', 'deref', 'borrow',
-                   'into', 'as_mut_vec', 'into_boxed_str', 'into_vec', 'as_slice', 'to_str', 'into_owned')
+                   'into', 'as_mut_vec', 'into_boxed_str', 'into_vec', 'as_slice', 'to_str', 'into_owned', 'branch', 'map_err')
 
     def root(self, t):
         """the value whose TEXT the term denotes (through content-preserving functions), or None"""
@@ -69,8 +69,10 @@ class Exact:
                 t = t[1]
             elif t[0] == 'cast':
                 t = t[2]
-            elif t[0] == 'call' and len(t[2]) == 1 and t[1].rsplit('::', 1)[-1] in self.TRANSPARENT:
+            elif t[0] == 'call' and len(t[2]) >= 1 and t[1].rsplit('::', 1)[-1] in self.TRANSPARENT and (len(t[2]) == 1 or t[1].endswith('::map_err')):
                 t = t[2][0]
+            elif t[0] == 'hof' and t[1] == 'map_err':
+                t = t[2]
             else:
                 r = self.ctx.text_root(t)
                 return r if r is not None and r[0] == 'arg' else None
@@ -108,9 +110,16 @@ class Exact:
         for meta in self.P.facts['fns']:
             if meta['path'] == name:
                 src = self.ctx.valtype(sites.strip_ref(meta['inputs'][0])) if meta['inputs'] else None
-        r = self.ev(b, self.ctx.I.expand(T.ret()), src)
+        r = self.ev(b, T.ret(), src)
         self.memo[name] = r
         return r
+
+    def closure(self, name, src):
+        cb = self.P.body(name)
+        if cb is None:
+            raise Undetermined(f'closure {name} has no body')
+        T = self.ctx.I.terms(name)
+        return self.ev(cb, T.ret(), src)
 
     def ev(self, b, t, src):
         k = t[0]
@@ -120,6 +129,8 @@ class Exact:
             return self.ev(b, t[1], src)
         if k in ('field', 'payload', 'cast') and self.root(t) is not None and self.root(t)[:2] == ('arg', 1):
             return (self.ALL, src)
+        if k in ('field', 'payload') and t[1][0] in ('call', 'hof') and (k == 'payload' or t[2] == 0):
+            return self.ev(b, t[1], src)          # the payload of the Option / Result another conversion returned (let-else, match, `?`)
         if k == 'phi':
             res = None
             for a in t[1]:
@@ -137,8 +148,13 @@ class Exact:
             if t[1] in ('map_err', 'ok_or_else', 'or_else_err'):
                 return self.ev(b, t[2], src)
             if t[1] == 'map':
-                ok1, t1 = self.ev(b, t[2], src)
                 g = t[3]
+                try:
+                    ok1, t1 = self.ev(b, t[2], src)
+                except Undetermined:
+                    if g[0] == 'agg' and g[1][0] == 'closure':
+                        return self.closure(g[1][1], src)
+                    raise
                 gname = g[1] if g[0] in ('fn', 'item') else g[1][1] if g[0] == 'agg' and g[1][0] == 'closure' else None
                 if gname is None or t1 is None:
                     raise Undetermined(f'map with {str(g)[:60]}')
@@ -149,8 +165,15 @@ class Exact:
             c = t[1]
             args = t[2]
             base = c.rsplit('::', 1)[-1]
+            if c.endswith('::from_residual'):
+                return (self.NONE, None)            # `?` on a failure: the function fails
             if c.endswith('::new_unchecked'):
-                ty = self.ctx.valtype(c[:-len('::new_unchecked')])
+                head = c[:-len('::new_unchecked')]
+                m = re.match(r'^<(.+) as [^<>]+(<.*>)?>$', head)
+                ty = self.ctx.valtype(m.group(1) if m else head)
+                if args:
+                    lifted, _outer = sites.lift_upvars(self.ctx, b, args[0])
+                    args = (lifted,) + tuple(args[1:])
                 r = self.root(args[0]) if args else None
                 if ty is None or r is None or r[:2] != ('arg', 1):
                     raise Undetermined(f'{c} on something that is not the text of self')
@@ -164,11 +187,17 @@ class Exact:
             if re.search(r'(Result::<T, E>::ok|Option::<T>::ok_or|Option::<T>::ok_or_else|Result::<T, E>::map_err)$', c) and args:
                 return self.ev(b, args[0], src)
             if re.search(r'(Option::<T>::map|Result::<T, E>::map|Option::<T>::and_then)$', c) and len(args) == 2:
-                ok1, t1 = self.ev(b, args[0], src)
                 g = args[1]
                 gname = g[1] if g[0] in ('fn', 'item') else g[1][1] if g[0] == 'agg' and g[1][0] == 'closure' else None
                 if gname is None:
                     raise Undetermined(f'{base} with {str(g)[:60]}')
+                try:
+                    ok1, t1 = self.ev(b, args[0], src)
+                except Undetermined:
+                    if not (g[0] == 'agg' and g[1][0] == 'closure'):
+                        raise
+                    # the receiver is only a test (`self.scheme().map(|_| ..)`): the guard the combinator gives the closure's site (lifted_guards) carries it
+                    return self.closure(gname, src)
                 ok2, t2 = self.fn(gname)
                 return (intersect(ok1, ok2), t2)
             if len(args) == 1 and base in self.TRANSPARENT and self.P.body(c) is None:
